@@ -54,4 +54,15 @@ def simulate_checked(case, res: Result, pid):
     if err is not None:
         res.classes += (f'run-raised:{type(err).__name__}',)
         res.run_error = err
+        if not by_design(err):
+            # the model is valid by construction: a run that raises cannot satisfy a per-instant property
+            res.bad(f'{pid}/run-raises/{type(err).__name__}', f'simulation of a valid model raised '
+                    f'{type(err).__name__}: {err}')
     return b, traces, err
+
+
+def by_design(err) -> bool:
+    """documented refusals that a valid-model generator may still hit"""
+    s = str(err)
+    return isinstance(err, ValueError) and ("misses 'module'" in s or "misses 'elastic_modulus'" in s
+                                            or 'Gear mating not defined' in s)
